@@ -518,7 +518,8 @@ fn fmt_snippet_window_with_mapping_or_fallback(
         }
     };
     let gutter_width = max_display_row.to_string().len();
-    writeln!(f, "  |")?;
+    // Frame and marker lines use the same gutter as the numbered lines.
+    writeln!(f, "{:>gutter_width$} |", "")?;
 
     let mut cur_row = window_start_row;
     for line in window_text.split_inclusive('\n') {
@@ -540,11 +541,11 @@ fn fmt_snippet_window_with_mapping_or_fallback(
                 .rfind('\n')
                 .map(|i| i + 1)
                 .unwrap_or(0);
-            let caret_chars = window_text[line_byte_start..local_start].chars().count();
+            let pad = marker_padding(&window_text[line_byte_start..local_start]);
             if msg.is_empty() {
-                writeln!(f, "  | {space:>caret_chars$}^", space = "")?;
+                writeln!(f, "{:>gutter_width$} | {pad}^", "")?;
             } else {
-                writeln!(f, "  | {space:>caret_chars$}^ {msg}", space = "", msg = msg)?;
+                writeln!(f, "{:>gutter_width$} | {pad}^ {msg}", "")?;
             }
         }
 
@@ -565,16 +566,34 @@ fn fmt_snippet_window_with_mapping_or_fallback(
                 .rfind('\n')
                 .map(|i| i + 1)
                 .unwrap_or(0);
-            let caret_chars = window_text[line_byte_start..local_start].chars().count();
+            let pad = marker_padding(&window_text[line_byte_start..local_start]);
             if msg.is_empty() {
-                writeln!(f, "  | {space:>caret_chars$}^", space = "")?;
+                writeln!(f, "{:>gutter_width$} | {pad}^", "")?;
             } else {
-                writeln!(f, "  | {space:>caret_chars$}^ {msg}", space = "", msg = msg)?;
+                writeln!(f, "{:>gutter_width$} | {pad}^ {msg}", "")?;
             }
         }
     }
 
-    writeln!(f, "  |")
+    writeln!(f, "{:>gutter_width$} |", "")
+}
+
+/// Blank padding that is as wide on screen as `prefix` (the text left of the marker on its
+/// line): wide characters take two columns, combining and zero-width ones none, and a tab is
+/// repeated as a tab so it expands like the one above it.
+fn marker_padding(prefix: &str) -> String {
+    use unicode_width::UnicodeWidthChar;
+    let mut pad = String::with_capacity(prefix.len());
+    for c in prefix.chars() {
+        if c == '\t' {
+            pad.push('\t');
+        } else {
+            for _ in 0..c.width().unwrap_or(0) {
+                pad.push(' ');
+            }
+        }
+    }
+    pad
 }
 
 /// Print a message optionally suffixed with a localized location suffix.
